@@ -33,6 +33,13 @@ func checkC06(c *Ctx) {
 	c.Rule("R6.3", "CheckedEntry.Write: all cores, then the hook, then recycle", 3)
 	c.Rule("R6.4", "ioCore.Write syncs after the write for DPanic/Panic/Fatal; BufferedWriteSyncer.Sync always syncs the sink", 4)
 	c.Rule("R6.5", "default actions: panic(message) / exit.With(1) -> os.Exit / Goexit; exit function only written by the stub helpers, which non-test code never calls", 5)
+	c.Rule("R6.7", "Config wires development mode (DPanic panics) exactly under Config.Development", 1)
+	if g, pos, ok := ConfigOptionGuards(c, "Development"); ok {
+		rn := c.Method(ZapPath, "Config", "buildOptions").Params[0].Name()
+		c.Check(len(g) == 1 && g[0] == rn+".Development", "R6.7", "(go.uber.org/zap.Config).buildOptions", "development-option", pos, "the Development() option is installed under exactly {%s.Development} (found {%s}); any further condition makes DPanic return normally for some development configurations", rn, strings.Join(g, ", "))
+	} else {
+		c.Bad("R6.7", "(go.uber.org/zap.Config).buildOptions", "development-option", pos, "Config.buildOptions never installs the Development() option")
+	}
 
 	lv := map[string]int64{}
 	for _, n := range levelNames {
@@ -370,13 +377,40 @@ func c6FrontEnds(c *Ctx, lv map[string]int64) {
 			continue
 		}
 		c.Check(Strip(Args(chk)[1]) == ssa.Value(fn.Params[1]), "R6.2", name, "checks-same-level", chk.Pos(), "Logger.Check is called with the helper's own lvl parameter")
-		for k, r := range Returns(fn) {
-			if Dominates(chk, r) {
-				continue
+		// with the level fixed to each value from DPanic upwards, every path reaches Logger.Check
+		_ = lim
+		lp := fn.Params[1].Name()
+		var skipping []string
+		nP := 0
+		for L := lv["DPanic"]; L <= lv["Fatal"]+1; L++ {
+			lvv := L
+			seqs, trunc := ConcPaths(fn, ConcCfg{
+				Prune:  true,
+				Inline: func(h *ssa.Function) bool { return len(h.Blocks) <= 4 },
+				Conc: func(d string) (int64, bool) {
+					if d == lp {
+						return lvv, true
+					}
+					return 0, false
+				},
+				Event: func(in ssa.Instruction, st *ConcState) string {
+					if cl, ok := in.(*ssa.Call); ok && IsCallTo(cl, "(*go.uber.org/zap.Logger).Check") {
+						return "check"
+					}
+					return ""
+				},
+			})
+			if trunc || len(seqs) == 0 {
+				skipping = append(skipping, "exploration incomplete at level "+itoa(int(lvv)))
 			}
-			ok, cex := AllDisjunctsHave(PathConds(r.Block()), func(s string) bool { return s == "lvl < "+lim })
-			c.Check(ok, "R6.2", name, "early-return#"+itoa(k+1), r.Pos(), "a return that skips Logger.Check is only reachable under lvl < DPanicLevel (counter-example %v)", cex)
+			for _, sq := range seqs {
+				nP++
+				if !strings.Contains(sq, "check") {
+					skipping = append(skipping, "level "+itoa(int(lvv))+": a path returns without Logger.Check")
+				}
+			}
 		}
+		c.Check(len(skipping) == 0, "R6.2", name, "no-skip-from-dpanic-up", fn.Pos(), "with lvl fixed to each of DPanic, Panic, Fatal and one value above, every path of the helper (%d explored, small helpers inline) reaches Logger.Check - the cheap Enabled pre-check cannot skip an entry that must panic or exit: %v", nP, skipping)
 		var w ssa.Instruction
 		for _, cl := range Calls(fn) {
 			if IsCallTo(cl, "(*go.uber.org/zap/zapcore.CheckedEntry).Write") && Strip(Args(cl)[0]) == ssa.Value(chk) {
@@ -412,6 +446,87 @@ func c6FrontEnds(c *Ctx, lv map[string]int64) {
 			okB := len(mk.Bindings) == 1 && mk.Bindings[0] == ssa.Value(ltf.Params[0])
 			c.Check(known && want == lvlEq && okB, "R6.2", ltf.String(), "arm/"+m, r.Pos(), "level %d maps to the bound method Logger.%s of the given logger", lvlEq, m)
 			found[m] = true
+		}
+		// the same table written as a map literal looked up by the level
+		var lookups []*ssa.Lookup
+		AllInstrs(ltf, func(i ssa.Instruction) {
+			if lk, ok := i.(*ssa.Lookup); ok && lk.CommaOk {
+				lookups = append(lookups, lk)
+			}
+		})
+		AllInstrs(ltf, func(i ssa.Instruction) {
+			mu, ok := i.(*ssa.MapUpdate)
+			if !ok {
+				return
+			}
+			mk, ok := Strip(mu.Value).(*ssa.MakeClosure)
+			key, isC := ConstInt(mu.Key)
+			if !ok || !isC {
+				return
+			}
+			// the map is consulted with the level parameter, and its entry is what a found lookup returns
+			used := false
+			for _, lk := range lookups {
+				if lk.X == mu.Map && Strip(lk.Index) == ssa.Value(ltf.Params[1]) {
+					for _, r := range Returns(ltf) {
+						if ex, ok := Strip(RetVals(r)[0]).(*ssa.Extract); ok && ex.Tuple == ssa.Value(lk) && ex.Index == 0 && IsNilConst(Strip(RetVals(r)[1])) {
+							used = HasAtom(Guards(r), func(a string) bool { return strings.Contains(a, "#1") && !strings.HasPrefix(a, "!") })
+						}
+					}
+				}
+			}
+			m := strings.TrimSuffix(mk.Fn.Name(), "$bound")
+			want, known := lv[m]
+			okB := len(mk.Bindings) == 1 && mk.Bindings[0] == ssa.Value(ltf.Params[0])
+			c.Check(known && want == key && okB && used, "R6.2", ltf.String(), "arm/"+m, mu.Pos(), "level %d maps to the bound method Logger.%s of the given logger (table entry, returned when the level is found)", key, m)
+			found[m] = true
+		})
+		// ... or as an array indexed by lvl - K
+		for _, r := range Returns(ltf) {
+			ld, ok := Strip(RetVals(r)[0]).(*ssa.UnOp)
+			if !ok || ld.Op != token.MUL || !IsNilConst(Strip(RetVals(r)[1])) {
+				continue
+			}
+			ia, ok := ld.X.(*ssa.IndexAddr)
+			if !ok {
+				continue
+			}
+			base := int64(0)
+			idx := Strip(ia.Index)
+			if bo, ok := idx.(*ssa.BinOp); ok && bo.Op == token.SUB {
+				if k, isC := ConstInt(bo.Y); isC {
+					base, idx = k, Strip(bo.X)
+				}
+			}
+			if idx != ssa.Value(ltf.Params[1]) {
+				continue
+			}
+			arr, ok := types.Unalias(deref(ia.X.Type())).Underlying().(*types.Array)
+			if !ok {
+				continue
+			}
+			lo, hi := "lvl >= "+itoa(int(base)), "lvl <= "+itoa(int(base+arr.Len()-1))
+			inRange := HasAtom(Guards(r), func(a string) bool { return a == lo }) && HasAtom(Guards(r), func(a string) bool { return a == hi })
+			AllInstrs(ltf, func(i ssa.Instruction) {
+				st, ok := i.(*ssa.Store)
+				if !ok {
+					return
+				}
+				sa, ok := st.Addr.(*ssa.IndexAddr)
+				if !ok || sa.X != ia.X {
+					return
+				}
+				mk, ok := Strip(st.Val).(*ssa.MakeClosure)
+				k, isC := ConstInt(sa.Index)
+				if !ok || !isC {
+					return
+				}
+				m := strings.TrimSuffix(mk.Fn.Name(), "$bound")
+				want, known := lv[m]
+				okB := len(mk.Bindings) == 1 && mk.Bindings[0] == ssa.Value(ltf.Params[0])
+				c.Check(known && want == k+base && okB && inRange, "R6.2", ltf.String(), "arm/"+m, st.Pos(), "level %d maps to the bound method Logger.%s of the given logger (array entry %d, indexed by lvl - (%d) inside the range check)", k+base, m, k, base)
+				found[m] = true
+			})
 		}
 		for _, n := range levelNames {
 			if !found[n] {
@@ -605,6 +720,17 @@ func c6Write(c *Ctx) {
 		over = strings.Replace(over, coreWrite.Parent().Params[0].Name()+".", rc+".", 1)
 	})
 	c.Check(ok && over == rc+".cores", "R6.3", name, "all-cores", coreWrite.Pos(), "every accepting core is written (range over %s, no early exit) %s", over, why)
+	// a tee registered as ONE core (under a wrapper that registers itself) must hand the final entry to all its branches too
+	if mw := c.Method(CorePath, "multiCore", "Write"); c.Anchor("R6.3", "zapcore.multiCore.Write", mw != nil) {
+		okT, whyT, in2, _ := VisitsAll(mw, func(cl ssa.CallInstruction) bool {
+			return IsCallTo(cl, "(go.uber.org/zap/zapcore.Core).Write") && cl.Common().IsInvoke()
+		}, mw.Params[0])
+		pos := mw.Pos()
+		if in2 != nil {
+			pos = in2.Pos()
+		}
+		c.Check(okT, "R6.3", mw.String(), "all-branches", pos, "a tee writes the entry to every branch whatever the earlier branches returned, so a terminal entry reaches every core before control is lost %s", whyT)
+	}
 	c.Check(d1 == rc+".Entry" && d2 == fn.Params[1].Name(), "R6.3", name, "same-entry-and-fields", coreWrite.Pos(), "each core receives ce.Entry and the caller's fields (%s, %s)", d1, d2)
 	isAny := func(x ...*ssa.Call) func(ssa.Instruction) bool {
 		return func(i ssa.Instruction) bool {
